@@ -283,10 +283,16 @@ theorem srcAls_zero (id0 : Nat) : srcAls id0 0 = [.named "main", .named "_time_s
 theorem uwSource_ok (o : Oracles) (c : MCtx) (hn : c.namesOk) (d : LokiDb) (r : RangeAggX) (hm : r.sel.matchers.length ≤ 63)
     (label : String) (hl : r.kind.label? = some label) (hpost : r.post = [] ∨ ∃ ch more, r.post = .ch ch :: more) :
     ∃ n, (sourceX c.toCtx r).id = (labelConds r.sel).length + n ∧
-      PStage o c d r.sel (sourceX c.toCtx r).sel (entryPtsX o c.toCtx d r label) (srcAls (labelConds r.sel).length n) := by
+      PStage o c d r.sel (sourceX c.toCtx r).sel (entryPtsX o c.toCtx d r label) (srcAls (labelConds r.sel).length n) ∧
+      hasColumn (sourceX c.toCtx r).sel.cols "labels" = true := by
   rcases hpost with hp | ⟨ch, more, hp⟩
   · -- no label-rewriting stage: the select of `LogQL.splSel`
-    refine ⟨0, by simp [sourceX, hp, hl], ?_⟩
+    refine ⟨0, by simp [sourceX, hp, hl], ?_, ?_⟩
+    rotate_left
+    · simp only [sourceX, hp, hl]
+      rw [show unwrapSel label (labelsJoin c.toCtx r.sel (mainOrdered c.toCtx r.sel)) = _ from
+        splSel_unwrap c (.range ⟨.unwrap .sumOT label, r.sel, r.durNs, none, none, none⟩) .sumOT label rfl]
+      simp [uwJoinBody, uwJoinCols, Sel.cols, hasColumn, simpleCol]
     have hsel : (sourceX c.toCtx r).sel = uwJoinBody c.toCtx label (fpWiths c.toCtx r.sel ++
         [(.named "main", mainSorted c.toCtx r.sel),
          (.named "_time_series", (timeSeriesSel c.toCtx).setWiths (fpWiths c.toCtx r.sel))]) := by
@@ -329,7 +335,8 @@ theorem uwSource_ok (o : Oracles) (c : MCtx) (hn : c.namesOk) (d : LokiDb) (r : 
       rw [F.last, unwrapSel_fl]
     have hpts : entryPtsX o c.toCtx d r label = (entriesX o c.toCtx d r).map (entryPtX o label) := by
       simp only [entryPtsX, hp]
-    refine ⟨init.length, hid, ?_⟩
+    refine ⟨init.length, hid, ?_, by
+      rw [hsel]; simp [runSelG, Sel.setWiths, Sel.cols, colsRflG, hasColumn]⟩
     rw [hsel, hpts]
     refine ⟨⟨_, by rw [withs_setWiths, srcWiths_rest], ?_⟩, by rw [withs_setWiths]; exact F.nodup, ?_⟩
     · have := F.alsEq
